@@ -223,10 +223,46 @@ class Check(Property):
                 v.append(f"C01 loaded-definitions probe for {nm!r} raised {type(exc).__name__}: {exc}")
         return v
 
+    def converted_object_probe(self):
+        """the predicates judge the units an object HAS: a quantity obtained by a conversion (plain, to base / root units, or
+        through a context, which changes the dimensionality) answers like a fresh quantity with the same units - whether or not
+        the source object had been asked about its dimensionality before"""
+        v = []
+        u = regs.fresh("float")
+        targets = ["meter", "hertz", "second", "joule", "kelvin", "1 / centimeter"]
+        for asked_first in (False, True):
+            for (x, src), dst, ctx in (((500.0, "nanometer"), "terahertz", "sp"), ((1.0, "terahertz"), "nanometer", "sp"),
+                                       ((2.0, "electron_volt"), "1 / centimeter", "sp"), ((300.0, "kelvin"), "joule", "boltzmann"),
+                                       ((3.0, "mile"), "kilometer", None), ((1.0, "newton"), None, None)):
+                q = u.Quantity(x, src)
+                if asked_first:
+                    q.check("[length]"), q.dimensionality, q.is_compatible_with("meter")
+                try:
+                    if dst is None:
+                        f = q.to_base_units()
+                    elif ctx:
+                        f = q.to(dst, ctx)
+                    else:
+                        f = q.to(dst)
+                except Exception as exc:  # noqa: BLE001
+                    v.append(f"C01 converted-object probe {x} {src} -> {dst} ({ctx}) raised {type(exc).__name__}")
+                    continue
+                fresh = u.Quantity(f.magnitude, f.units)
+                tag = f"C01 {x} {src} -> {dst or 'base units'}{' through ' + ctx if ctx else ''} ({'source asked before' if asked_first else 'nothing asked'})"
+                if f.dimensionality != fresh.dimensionality:
+                    v.append(f"{tag}: the result reports the dimensionality {dict(f.dimensionality)}, its units have {dict(fresh.dimensionality)}")
+                for t in targets:
+                    got = (f.is_compatible_with(t), u.is_compatible_with(f, t), u.Unit(t).is_compatible_with(f), f.check(u.get_dimensionality(t)))
+                    want = (fresh.is_compatible_with(t), u.is_compatible_with(fresh, t), u.Unit(t).is_compatible_with(fresh), fresh.check(u.get_dimensionality(t)))
+                    if got != want:
+                        v.append(f"{tag}: predicates against {t!r} give {got}, a fresh quantity with the same units gives {want}")
+                        break
+        return v[:6]
+
     def oracle(self, c):
         if not getattr(self, "_probe_done", False):
             self._probe_done = True
-            pv = self.loaded_definitions_probe()
+            pv = self.loaded_definitions_probe() + self.converted_object_probe()
             if pv:
                 return pv
         if c["kind"] == "dimexpr":
